@@ -61,6 +61,10 @@ def raw_cost(spec, x):
     if fam == 'stair':        # a quadratic bowl quantised to steps of 1/k: exact ties occur between nearby points
         k = float(spec.get('k', 10.0))
         return float(np.floor(k * np.sum(w * (x - a) ** 2)) / k)
+    if fam == 'nanhalf':      # undefined (NaN) on a half space, like a log of a negative argument
+        if x[0] > a[0] + 1.0:
+            return float('nan')
+        return float(np.sum(w * (x - a) ** 2))
     if fam == 'infhalf':
         if x[0] > a[0] + 1.0:
             return float('inf')
